@@ -1,2 +1,217 @@
 #![allow(warnings, clippy::all, clippy::pedantic, clippy::nursery)]
+//@ module: commands::forget
+//! C09: retention rules.  jiff's calendar arithmetic (i128 nanoseconds) is out of CBMC's reach for symbolic
+//! instants, but forget.rs never does calendar arithmetic itself - it composes jiff accessors.  Snapshots
+//! therefore carry concrete, strictly decreasing marker instants (real jiff values; the real Ord sorts them) and
+//! the accessors forget.rs uses are stubbed to return the fields of a *symbolic civil time per marker*, constrained
+//! by an in-harness proleptic-Gregorian / ISO-8601 model.  Claim: forget.rs is right if jiff's accessors agree
+//! with the calendar.  In replay mode (native, no stubs) the same civil times are turned into real Zoned values.
 use super::*;
+use crate::error::verif_harness as vh;
+use crate::repofile::DeleteOption;
+use crate::blob::tree::TreeId;
+use jiff::{civil::{ISOWeekDate, Weekday, DateTime}, tz::TimeZone, Timestamp};
+use std::sync::atomic::{AtomicI16, AtomicI8, Ordering::Relaxed};
+
+pub(crate) const MAXN: usize = 4;
+const BASE: i64 = 1_500_000_000;
+static T_Y: [AtomicI16; MAXN] = [const { AtomicI16::new(0) }; MAXN];
+static T_MO: [AtomicI8; MAXN] = [const { AtomicI8::new(0) }; MAXN];
+static T_DOY: [AtomicI16; MAXN] = [const { AtomicI16::new(0) }; MAXN];
+static T_H: [AtomicI8; MAXN] = [const { AtomicI8::new(0) }; MAXN];
+static T_MI: [AtomicI8; MAXN] = [const { AtomicI8::new(0) }; MAXN];
+static T_WY: [AtomicI16; MAXN] = [const { AtomicI16::new(0) }; MAXN];
+static T_W: [AtomicI8; MAXN] = [const { AtomicI8::new(0) }; MAXN];
+
+fn midx(z: &Zoned) -> usize {
+    let s = z.timestamp().as_second();
+    let mut i = 0;
+    while i < MAXN { if s == BASE - 1000 * i as i64 { return i; } i += 1; }
+    0
+}
+fn st_year(z: &Zoned) -> i16 { T_Y[midx(z)].load(Relaxed) }
+fn st_month(z: &Zoned) -> i8 { T_MO[midx(z)].load(Relaxed) }
+fn st_doy(z: &Zoned) -> i16 { T_DOY[midx(z)].load(Relaxed) }
+fn st_hour(z: &Zoned) -> i8 { T_H[midx(z)].load(Relaxed) }
+fn st_minute(z: &Zoned) -> i8 { T_MI[midx(z)].load(Relaxed) }
+const WD: [Weekday; 7] = [Weekday::Monday, Weekday::Tuesday, Weekday::Wednesday, Weekday::Thursday, Weekday::Friday, Weekday::Saturday, Weekday::Sunday];
+/// the returned ISOWeekDate only carries the marker index (in its weekday); its year/week accessors are stubbed
+fn st_iso_week_date(z: Zoned) -> ISOWeekDate {
+    let i = midx(&z);
+    std::mem::forget(z);
+    ISOWeekDate::new(2016, 10, WD[i]).unwrap()
+}
+fn wd_idx(d: ISOWeekDate) -> usize { d.weekday().to_monday_zero_offset() as usize }
+fn st_iso_year(d: ISOWeekDate) -> i16 { T_WY[wd_idx(d)].load(Relaxed) }
+fn st_iso_week(d: ISOWeekDate) -> i8 { T_W[wd_idx(d)].load(Relaxed) }
+
+#[derive(Clone, Copy, PartialEq, Eq)]
+pub(crate) struct Civ { y: i16, mo: i8, d: i8, h: i8, mi: i8, doy: i16, wy: i16, w: i8 }
+
+fn is_leap(y: i32) -> bool { (y % 4 == 0 && y % 100 != 0) || y % 400 == 0 }
+const CUM: [i32; 12] = [0, 31, 59, 90, 120, 151, 181, 212, 243, 273, 304, 334];
+const MDAYS: [i32; 12] = [31, 28, 31, 30, 31, 30, 31, 31, 30, 31, 30, 31];
+/// Monday = 1 ... Sunday = 7 for Jan 1st of year y (2014 <= y <= 2022), from the known anchor 2014-01-01 = Wednesday
+fn jan1_weekday(y: i32) -> i32 {
+    let mut wd = 3; // 2014-01-01 was a Wednesday
+    let mut k = 2014;
+    while k < 2023 { if k < y { wd = (wd - 1 + if is_leap(k) { 366 } else { 365 }) % 7 + 1; } k += 1; }
+    wd
+}
+fn weeks_in_year(y: i32) -> i32 { let j = jan1_weekday(y); if j == 4 || (is_leap(y) && j == 3) { 53 } else { 52 } }
+
+/// arbitrary valid civil minute in 2014..=2021 with its derived day-of-year and ISO week date
+fn any_civ() -> Civ {
+    let y: i16 = kani::any(); let mo: i8 = kani::any(); let d: i8 = kani::any(); let h: i8 = kani::any(); let mi: i8 = kani::any();
+    kani::assume(y >= 2014 && y <= 2021 && mo >= 1 && mo <= 12 && h >= 0 && h <= 23 && mi >= 0 && mi <= 59);
+    let leap = is_leap(y as i32);
+    let dim = MDAYS[(mo - 1) as usize] + if leap && mo == 2 { 1 } else { 0 };
+    kani::assume(d >= 1 && (d as i32) <= dim);
+    let doy = CUM[(mo - 1) as usize] + d as i32 + if leap && mo > 2 { 1 } else { 0 };
+    let wd = (jan1_weekday(y as i32) - 1 + doy - 1) % 7 + 1;
+    let mut w = (doy - wd + 10) / 7;
+    let mut wy = y as i32;
+    if w < 1 { wy -= 1; w = weeks_in_year(wy); } else if w > weeks_in_year(wy) { w = 1; wy += 1; }
+    Civ { y, mo, d, h, mi, doy: doy as i16, wy: wy as i16, w: w as i8 }
+}
+fn civ_key(c: &Civ) -> i64 { ((((c.y as i64) * 13 + c.mo as i64) * 32 + c.d as i64) * 24 + c.h as i64) * 60 + c.mi as i64 }
+
+fn store(i: usize, c: &Civ) {
+    T_Y[i].store(c.y, Relaxed); T_MO[i].store(c.mo, Relaxed); T_DOY[i].store(c.doy, Relaxed); T_H[i].store(c.h, Relaxed);
+    T_MI[i].store(c.mi, Relaxed); T_WY[i].store(c.wy, Relaxed); T_W[i].store(c.w, Relaxed);
+}
+
+fn snap(time: Zoned, idb: u8) -> SnapshotFile {
+    SnapshotFile {
+        time, program_version: String::new(), parent: None, parents: Vec::new(), tree: TreeId::default(), label: String::new(),
+        paths: StringList::default(), hostname: String::new(), username: String::new(), uid: 0, gid: 0, tags: StringList::default(),
+        original: None, delete: DeleteOption::NotSet, summary: None, description: None, id: SnapshotId::from(vh::mk_id(idb)),
+    }
+}
+
+/// marker instant i (verification) or the real instant of civil time c (native replay, no stubs)
+fn time_of(i: usize, c: &Civ) -> Zoned {
+    if vh::replay_mode() {
+        DateTime::new(c.y, c.mo, c.d, c.h, c.mi, (MAXN - i) as i8, 0).unwrap().to_zoned(TimeZone::UTC).unwrap()
+    } else {
+        Timestamp::from_second(BASE - 1000 * i as i64).unwrap().to_zoned(TimeZone::UTC)
+    }
+}
+
+#[derive(Clone, Copy, PartialEq, Eq)]
+pub(crate) enum Rule { Minutely, Hourly, Daily, Weekly, Monthly, Quarterly, HalfYearly, Yearly }
+
+/// specification of "same period", written from the statement (civil fields / ISO week date)
+fn same_period(r: Rule, a: &Civ, b: &Civ) -> bool {
+    match r {
+        Rule::Yearly => a.y == b.y,
+        Rule::HalfYearly => a.y == b.y && (a.mo <= 6) == (b.mo <= 6),
+        Rule::Quarterly => a.y == b.y && (a.mo - 1) / 3 == (b.mo - 1) / 3,
+        Rule::Monthly => a.y == b.y && a.mo == b.mo,
+        Rule::Weekly => a.wy == b.wy && a.w == b.w,
+        Rule::Daily => a.y == b.y && a.mo == b.mo && a.d == b.d,
+        Rule::Hourly => a.y == b.y && a.mo == b.mo && a.d == b.d && a.h == b.h,
+        Rule::Minutely => a.y == b.y && a.mo == b.mo && a.d == b.d && a.h == b.h && a.mi == b.mi,
+    }
+}
+fn set_rule(k: &mut KeepOptions, r: Rule, n: i32) {
+    match r {
+        Rule::Minutely => k.keep_minutely = Some(n), Rule::Hourly => k.keep_hourly = Some(n), Rule::Daily => k.keep_daily = Some(n),
+        Rule::Weekly => k.keep_weekly = Some(n), Rule::Monthly => k.keep_monthly = Some(n), Rule::Quarterly => k.keep_quarter_yearly = Some(n),
+        Rule::HalfYearly => k.keep_half_yearly = Some(n), Rule::Yearly => k.keep_yearly = Some(n),
+    }
+}
+
+/// N snapshots, rule `r` with count n in -1..=N, optionally keep-last m; compares KeepOptions::apply with the
+/// reference "newest snapshot of each of the newest n distinct periods, or the oldest snapshot while the counter remains"
+fn rule_check<const N: usize>(r: Rule, with_last: bool) {
+    let mut civ = [Civ { y: 0, mo: 0, d: 0, h: 0, mi: 0, doy: 0, wy: 0, w: 0 }; N];
+    let mut i = 0;
+    while i < N { civ[i] = any_civ(); store(i, &civ[i]); i += 1; }
+    // marker order = time order: civil times non-increasing from newest to oldest
+    let mut i = 0;
+    while i + 1 < N { kani::assume(civ_key(&civ[i]) >= civ_key(&civ[i + 1])); i += 1; }
+    let n: i32 = kani::any();
+    kani::assume(n >= -1 && n <= N as i32);
+    let m: i32 = if with_last { kani::any() } else { 0 };
+    kani::assume(m >= -1 && m <= N as i32);
+    let mut keep = KeepOptions::default();
+    set_rule(&mut keep, r, n);
+    if with_last { keep.keep_last = Some(m); }
+    // the snapshots are handed over oldest first: apply has to sort them
+    let mut snaps = Vec::with_capacity(N);
+    let mut i = N;
+    while i > 0 { i -= 1; snaps.push(snap(time_of(i, &civ[i]), i as u8)); }
+    let now = time_of(0, &civ[0]);
+    let res = keep.apply(snaps, &now);
+    let res = match res { Ok(v) => v, Err(e) => { std::mem::forget(e); assert!(false, "apply failed on valid keep options"); return; } };
+    assert!(res.len() == N);
+    // reference
+    let mut cnt = n;
+    let mut last_cnt = m;
+    let mut i = 0;
+    while i < N {
+        // newest first in the result
+        assert!(res[i].snapshot.id == SnapshotId::from(vh::mk_id(i as u8)));
+        let cand = i == 0 || i == N - 1 || !same_period(r, &civ[i], &civ[i - 1]);
+        let mut want = false;
+        if cand && cnt != 0 { want = true; if cnt > 0 { cnt -= 1; } }
+        if with_last && last_cnt != 0 { want = true; if last_cnt > 0 { last_cnt -= 1; } }
+        assert!(res[i].keep == want);
+        i += 1;
+    }
+    kani::cover!(N >= 3 && res[1].keep != res[2].keep, "middle snapshots treated differently");
+    kani::cover!(N >= 2 && same_period(r, &civ[0], &civ[1]) && civ_key(&civ[0]) != civ_key(&civ[1]), "two different snapshots in one period");
+    kani::cover!(N >= 2 && !same_period(r, &civ[0], &civ[1]), "two snapshots in different periods");
+    std::mem::forget(res);
+}
+
+macro_rules! rule_instance {
+    ($name:ident, $n:expr, $rule:expr, $last:expr) => {
+        #[kani::proof]
+        #[kani::unwind(36)]
+        #[kani::stub(std::backtrace::Backtrace::capture, crate::error::verif_harness::stub_backtrace_capture)]
+        #[kani::stub(jiff::Zoned::year, st_year)]
+        #[kani::stub(jiff::Zoned::month, st_month)]
+        #[kani::stub(jiff::Zoned::day_of_year, st_doy)]
+        #[kani::stub(jiff::Zoned::hour, st_hour)]
+        #[kani::stub(jiff::Zoned::minute, st_minute)]
+        #[kani::stub(jiff::Zoned::iso_week_date, st_iso_week_date)]
+        #[kani::stub(jiff::civil::ISOWeekDate::year, st_iso_year)]
+        #[kani::stub(jiff::civil::ISOWeekDate::week, st_iso_week)]
+        pub(crate) fn $name() { rule_check::<$n>($rule, $last); }
+    };
+}
+//@ instance: c09_minutely_3 c09_weekly_3 c09_daily_last_3 c09_hourly_3 c09_monthly_3 c09_quarterly_3 c09_halfyearly_3 c09_yearly_3 c09_weekly_4
+//@ harness: c09_minutely_3 c09_weekly_3 c09_daily_last_3
+//@ prop: C09
+//@ tier: quick
+//@ timeout: 1500
+//@ mem: 16
+//@ kernel: KeepOptions::{apply, matches, is_valid}, equal_minute / equal_week / equal_day (and the predicates they compose), always_false, SnapshotFile::{must_keep, must_delete, cmp}
+//@ bound: 3 snapshots with symbolic civil times (any valid minute in 2014..=2021, so every ISO week-year edge 2014/15 .. 2021/22 occurs), non-increasing in time, handed over oldest first; one period rule active with count symbolic in -1..=3 (c09_daily_last_3: plus keep-last with symbolic count); delete marks not set
+//@ oracle: result is sorted newest first and snapshot i is kept <=> it is the newest of its period (same minute = same y/m/d/h/mi; same week = same ISO week-year and week; same day = same y/m/d) or the oldest overall, and it is among the first n such candidates (n = -1: all), or keep-last applies; period equality is specified on civil fields / ISO week date
+//@ stub: jiff::Zoned::{year, month, day_of_year, hour, minute, iso_week_date}, jiff::civil::ISOWeekDate::{year, week} -> fields of a symbolic civil time per marker instant, constrained by an in-harness Gregorian / ISO-8601 model; Backtrace::capture
+//@ assume: jiff's accessors agree with the proleptic Gregorian / ISO-8601 calendar (jiff is trusted); snapshots have distinct time stamps
+//@ outside: keep-within variants (Span arithmetic), tags/ids, delete marks, grouping; years outside 2014..=2021; time zones other than UTC
+//@ replay: twin
+rule_instance!(c09_minutely_3, 3, Rule::Minutely, false);
+rule_instance!(c09_weekly_3, 3, Rule::Weekly, false);
+rule_instance!(c09_daily_last_3, 3, Rule::Daily, true);
+//@ harness: c09_hourly_3 c09_monthly_3 c09_quarterly_3 c09_halfyearly_3 c09_yearly_3 c09_weekly_4
+//@ prop: C09
+//@ tier: thorough
+//@ timeout: 3000
+//@ mem: 24
+//@ kernel: as c09_minutely_3, all nine period predicates
+//@ bound: as c09_minutely_3 for the remaining rules; c09_weekly_4: 4 snapshots
+//@ oracle: as c09_minutely_3
+//@ stub: as c09_minutely_3
+//@ assume: jiff's accessors agree with the calendar
+//@ replay: twin
+rule_instance!(c09_hourly_3, 3, Rule::Hourly, false);
+rule_instance!(c09_monthly_3, 3, Rule::Monthly, false);
+rule_instance!(c09_quarterly_3, 3, Rule::Quarterly, false);
+rule_instance!(c09_halfyearly_3, 3, Rule::HalfYearly, false);
+rule_instance!(c09_yearly_3, 3, Rule::Yearly, false);
+rule_instance!(c09_weekly_4, 4, Rule::Weekly, false);
